@@ -10,6 +10,7 @@ import Uom.Proofs.BodyEq.Powi
 import Uom.Proofs.BodyEq.UnitMac
 import Uom.Proofs.BodyEq.LibConst
 import Uom.Proofs.DurPowOracleSound
+import Uom.Proofs.PowNormalDischarge
 /-!
 # C03 — unit conversion on construction and read-back is numerically faithful (floats)
 
@@ -230,11 +231,14 @@ theorem powi_accuracy (f : Fmt) (hp : 1 ≤ f.p) (c : Fl) (hc : c.isFinite = tru
     Proofs.Approx (Proofs.uro f) (powErr e) (flPowi f c e).toRat (c.toRat ^ e) :=
   DurPowOracleSound.flPowi_approx hp c hc e he hN
 
-/-- … so the oracle of the `pow` lines never rejects the model -/
-theorem oracle_accepts_pow_f32 (c : Fl) (e : Int) (he : e.natAbs ≤ 2 ^ 20) (hN : DurPowOracleSound.PowNormal b32 c e) :
-    DurPowOracleSound.NotProp (oraclePowFl b32 c e (flPowi b32 c e)) := DurPowOracleSound.oraclePowFl_sound_b32 c e he hN
-theorem oracle_accepts_pow_f64 (c : Fl) (e : Int) (he : e.natAbs < 2 ^ 31) (hN : DurPowOracleSound.PowNormal b64 c e) :
-    DurPowOracleSound.NotProp (oraclePowFl b64 c e (flPowi b64 c e)) := DurPowOracleSound.oraclePowFl_sound_b64 c e he hN
+/-- … so the oracle of the `pow` lines never rejects the model — **unconditionally**: a normal result forces every
+    intermediate of the by-squaring loop to be normal (`PowNormalDischarge.powNormal_of_result`: the loop computes no
+    unused square, magnitudes are monotone, rounding is monotone against representable bounds), and a non-normal
+    result, a zero or a non-finite coefficient are guarded by the oracle itself -/
+theorem oracle_accepts_pow_f32 (c : Fl) (hc : Fl.Canonical b32 c) (e : Int) (he : e.natAbs ≤ 2 ^ 20) :
+    DurPowOracleSound.NotProp (oraclePowFl b32 c e (flPowi b32 c e)) := PowNormalDischarge.oraclePowFl_sound'_b32 c hc e he
+theorem oracle_accepts_pow_f64 (c : Fl) (hc : Fl.Canonical b64 c) (e : Int) (he : e.natAbs < 2 ^ 31) :
+    DurPowOracleSound.NotProp (oraclePowFl b64 c e (flPowi b64 c e)) := PowNormalDischarge.oraclePowFl_sound'_b64 c hc e he
 
 /-- the oracle as first written (tolerance = number of *operations* of the by-squaring loop) rejected the
     model's own result: binary32, `c = 1 + 2⁻¹²`, `e = 64` (kernel-evaluated); the repaired one accepts it -/
